@@ -352,8 +352,28 @@ class Scenario:
         pre = dump(self.path)
         c = modelled_curve(idnt)
         u = user_attrs(rate, name, comment)
+        # (the lookup "is this curve rated already" is used before and after
+        # every save, as the rating GUI does)
+        from nanite.rate import io as _io
+        try:
+            _io.hdf5_rated(self.path, idnt)
+        except BaseException:
+            pass
         exn, f = do_save(self.path, idnt, rate, name, comment, fail)
         post = dump(self.path)
+        if exn is None:
+            try:
+                got = _io.hdf5_rated(self.path, idnt)
+                if not (bool(got[0]) and float(got[1]) == float(rate)
+                        and str(got[2]) == str(comment)):
+                    self.fail(f"{label}|hdf5_rated",
+                              f"step {self.step} {label}: after saving rate "
+                              f"{rate!r} / comment {comment!r}, hdf5_rated "
+                              f"answers {got!r}", theorem="C16_roundtrip")
+            except BaseException as e:
+                self.fail(f"{label}|hdf5_rated",
+                          f"step {self.step} {label}: hdf5_rated raised "
+                          f"{type(e).__name__}: {e}", theorem="C16_roundtrip")
         ids, err = loaded_ids(self.path)
         tag = f"step {self.step} {label} (fail={fail}) -> {exn}"
         self.run.case({"scenario": self.name, "step": self.step,
